@@ -12,7 +12,7 @@ REAL = ['onl.sim.core.Environment', 'onl.sim.events.Event/Timeout/Process/Initia
 STUBS = ['process bodies and plain callbacks are harness code']
 ASSUMPTIONS = ['registration order of process waiters is the G order of the bodies\' "about to yield" logs',
                'no condition events in C02 programs (C05 owns them)']
-PROBES = ['driven_by_run_until_event', 'until_event_failed', 'event_ge3_waiters', 'failed_mixed_handling', 'reyield_processed_failed', 'child_failure_no_joiner',
+PROBES = ['chained_trigger', 'driven_by_run_until_event', 'until_event_failed', 'event_ge3_waiters', 'failed_mixed_handling', 'reyield_processed_failed', 'child_failure_no_joiner',
           'double_trigger', 'detached_by_interrupt', 'unhandled_escape', 'reyield_processed_ok']
 
 
@@ -121,6 +121,12 @@ def check(log, tvals, final, quiescent, cond_handling=None):
                         expected[ev] = ('ok', after[2])
                     else:
                         expected[ev] = ('exc', after[2][1], after[2][2])
+            elif what == 'chained':
+                # dst.trigger(src) ran as a callback of src: dst carries src's outcome from here on
+                e = exp_for(r[8])
+                if e is not None:
+                    expected[r[7]] = e
+                    stats['chained_trigger'] = 1
             elif what == 'addcb':
                 _, g, now, st, pid, opi, _, lb, cbid, mode = r
                 if mode != 'already-processed':
